@@ -36,6 +36,7 @@ type pubIn struct {
 	PID      uint16
 	Dup, Ret bool
 	Others   int // bit mask: payloadformat, expiry, responsetopic, correlation, contenttype, payload
+	SubID    uint32 // 0: none; a subscription identifier added with AddSubscriptionID (the documented rule does not mention it)
 }
 
 func mkPub(in pubIn) *mq.Publish {
@@ -70,6 +71,9 @@ func mkPub(in pubIn) *mq.Publish {
 	}
 	if in.Others&32 != 0 {
 		p.SetPayload([]byte("x"))
+	}
+	if in.SubID != 0 {
+		p.AddSubscriptionID(in.SubID)
 	}
 	return p
 }
@@ -202,6 +206,30 @@ func c17Sub(in subIn, decoded bool) *core.Finding {
 	return nil
 }
 
+// c17Long: n filters, all well-formed but (bad != 0) the one at pos, which
+// is empty (1) or asks for QoS 3 (2).
+func c17Long(n, pos, bad int, decoded bool) *core.Finding {
+	fs := make([]filtIn, n)
+	for i := range fs {
+		fs[i] = filtIn{false, byte(i % 3)}
+	}
+	switch bad {
+	case 1:
+		fs[pos] = filtIn{true, 1}
+	case 2:
+		fs[pos] = filtIn{false, 3}
+	}
+	f := c17Sub(subIn{-1, fs}, decoded)
+	if f != nil {
+		f.Class = "long-list/" + f.Class
+		if i := strings.Index(f.Detail, "}: "); i > 0 {
+			f.Detail = f.Detail[i+3:]
+		}
+		f.Detail = fmt.Sprintf("SUBSCRIBE with %d filters, the one at index %d %s: %s", n, pos, [...]string{"well-formed like the rest", "empty", "asking for QoS 3"}[bad], f.Detail)
+	}
+	return f
+}
+
 func c17Filter(f filtIn) *core.Finding {
 	tf := mkFilter(f)
 	var wf *mq.Malformed
@@ -215,6 +243,7 @@ func c17Filter(f filtIn) *core.Finding {
 	return nil
 }
 
+var c17PubSubIDs = []uint32{1, 127, 128, 268435455, 268435456, 1<<32 - 1}
 var subIDs17 = []int{-1, 0, 1, 268435455, 268435456, 1<<31 - 1, 1 << 32, 1<<32 + 5, 1<<62 + 1}
 var optAlpha12 = []byte{0, 1, 2, 3, 4, 8, 0x10, 0x20, 0x30, 0x40, 0x80, 0xff}
 
@@ -701,8 +730,11 @@ func runC17(x *core.Ctx) {
 				}
 				for _, pid := range []uint16{0, 1, 65535} {
 					for flags := 0; flags < 4; flags++ {
-						for others := 0; others < 64; others++ {
-							in := pubIn{topic, alias, qos, pid, flags&1 != 0, flags&2 != 0, others}
+						for others := 0; others < 64+len(c17PubSubIDs); others++ {
+							in := pubIn{Topic: topic, Alias: alias, QoS: qos, PID: pid, Dup: flags&1 != 0, Ret: flags&2 != 0, Others: others}
+							if others >= 64 {
+								in.Others, in.SubID = 0, c17PubSubIDs[others-64]
+							}
 							for _, dec := range []bool{false, true} {
 								dec := dec
 								x.Eval("publish")
@@ -715,7 +747,7 @@ func runC17(x *core.Ctx) {
 			}
 		}
 	}
-	x.Sample("publish", 1, func() any { return pubIn{false, 3, 1, 0, false, true, 5} })
+	x.Sample("publish", 1, func() any { return pubIn{false, 3, 1, 0, false, true, 5, 0} })
 	// TopicFilter
 	if x.Mine() {
 		for _, e := range []bool{false, true} {
@@ -724,6 +756,32 @@ func runC17(x *core.Ctx) {
 				x.Eval("topicfilter")
 				x.Distinct(core.Hash([]byte(fmt.Sprintf("tf%+v", f))))
 				report(c17Filter(f), core.Case{Harness: "c17.filter", Params: map[string]any{"in": f}}, func() *core.Finding { return c17Filter(f) })
+			}
+		}
+	}
+	// long filter lists with the one malformed filter (or none) at the
+	// start, in the middle, at the end
+	lens := []int{1, 2, 3, 7, 8, 9, 15, 16, 17, 31, 32, 33, 63, 64, 65, 66, 100, 127, 128, 129, 255, 256, 257, 1000, 5000}
+	for _, n := range Mined.NovelCounts {
+		if n > 3 && n <= 20000 {
+			lens = append(lens, n, n+1)
+		}
+	}
+	for _, n := range lens {
+		if !x.Mine() {
+			continue
+		}
+		for _, pos := range []int{0, n / 2, n - 2, n - 1} {
+			if pos < 0 {
+				continue
+			}
+			for bad := 0; bad < 3; bad++ {
+				for _, dec := range []bool{false, true} {
+					n, pos, bad, dec := n, pos, bad, dec
+					x.Eval("subscribe.long-lists")
+					x.Distinct(core.Hash([]byte(fmt.Sprintf("long%d/%d/%d/%v", n, pos, bad, dec))))
+					report(c17Long(n, pos, bad, dec), core.Case{Harness: "c17.long", Params: map[string]any{"n": n, "pos": pos, "bad": bad, "decoded": dec}}, func() *core.Finding { return c17Long(n, pos, bad, dec) })
+				}
 			}
 		}
 	}
@@ -811,7 +869,12 @@ func replayC17(c core.Case) *core.Finding {
 	case "c17.pub":
 		in := pubIn{Topic: m["Topic"].(bool), Alias: uint16(m["Alias"].(float64)), QoS: uint8(m["QoS"].(float64)), PID: uint16(m["PID"].(float64)),
 			Dup: m["Dup"].(bool), Ret: m["Ret"].(bool), Others: int(m["Others"].(float64))}
+		if v, ok := m["SubID"].(float64); ok {
+			in.SubID = uint32(v)
+		}
 		return c17Pub(in, dec)
+	case "c17.long":
+		return c17Long(paramInt(c.Params, "n"), paramInt(c.Params, "pos"), paramInt(c.Params, "bad"), dec)
 	case "c17.filter":
 		return c17Filter(filtIn{m["Empty"].(bool), byte(m["Opt"].(float64))})
 	case "c17.sub":
